@@ -44,13 +44,44 @@ def r18_1(run, model):
                witness="#[derive(ToJson)] struct S { p: (int32, int32) } : the generated body calls .to_json() on a tuple and the typer reports `Method to_json not found` about code the user never wrote")
 
 
+def r18_7(run, model):
+    run.rule("R18.7", "sibling derive entry points reject the same definitions: each derive_<struct|enum>_<trait> consults the definition's "
+                      "`generics` in a rejecting position (a test that returns Err, or a `?`-propagated helper) before it builds the impl "
+                      "with `generics: Vec::new()`")
+    sib = [f for f in model.fns(DER) if f.body is not None and re.fullmatch(r"derive_(struct|enum)_[a-z]+", f.name)]
+    run.floor("derive entry points", len(sib), 4)
+    verdict = {}
+    for f in sib:
+        par = S.Parents(f.body)
+        rejecting = False
+        for n in S.walk(f.body):
+            if n["k"] == "Field" and n.get("member") == "generics":
+                for a in par.ancestors(n):
+                    if a["k"] == "If" and S.span_contains(a["cond"]["sp"], n["sp"]) and any(
+                            r.get("expr") is not None and S.callee_name(r["expr"]) == "Err" for r in S.find(a["then"], "Return")):
+                        rejecting = True
+                    if a["k"] == "Try":
+                        rejecting = True
+        verdict[f.name] = rejecting
+    if not any(verdict.values()):
+        raise AnalysisIncomplete("no derive entry point consults `generics` (idiom changed)")
+    for name, ok in sorted(verdict.items()):
+        f = [x for x in sib if x.name == name][0]
+        run.ob("R18.7", f"{name}|rejects generic definitions like its siblings", ok, site(DER, f.node["sp"]),
+               "consults the definition's generics and rejects" if ok else f"does not look at `generics`; siblings that do: {sorted(k for k, v in verdict.items() if v)}",
+               witness="#[derive(ToJson)] enum Opt[T] { .. }: the derive emits `impl Opt { fn to_json(self: Opt) .. }` and the typer reports errors about generated code")
+
+
 def r18_2(run, model):
     run.rule("R18.2", "JSON string leaves are produced by a JSON encoder: the runtime json_escape_string does not use Go's %q verb (Go syntax: "
                       "\\x00, \\a, \\U0001F600 are not JSON)")
     f = model.fn("json_escape_string", RUNTIME)
     lits = [n["value"] for n in S.walk(f.body) if n["k"] == "Lit" and n.get("lit") == "Str"]
-    ok = "%q" not in lits
-    run.ob("R18.2", "json_escape_string|not %q", ok, site(RUNTIME, f.node["sp"]), f"string constants in the helper: {lits}",
+    verbs = sorted({v for l in lits for v in re.findall(r"%[+#\- 0-9.]*[qvxXU]", l)})
+    ok = not verbs
+    # the key names the verb: the recorded finding is `%q`; another Go quoting verb is a different violation
+    key = "json_escape_string|not %q" if verbs in ([], ["%q"]) else f"json_escape_string|Go formatting verb {' '.join(verbs)}"
+    run.ob("R18.2", key, ok, site(RUNTIME, f.node["sp"]), f"string constants in the helper: {lits}; Go quoting/formatting verbs: {verbs or 'none'}",
            witness="to_json of a string containing U+0007 or a non-BMP character yields \\a / \\U0001f600: not valid JSON")
 
 
@@ -195,4 +226,5 @@ def run(run, model):
     run.try_rule(r18_4, model)
     run.try_rule(r18_5, model)
     run.try_rule(r18_6, model)
+    run.try_rule(r18_7, model)
     run.assume("numeric leaves go through *_to_string, whose verbs are checked by C10 R10.4")
